@@ -303,18 +303,27 @@ def run_restart(sc):
             n_saved, g_saved = len(_RCALLS), s.generations
             del s
             t = ms.LoadSolver(name)
+            # the life of the restored solver = the calls up to the moment of the dump + its own calls from now on.  An
+            # explicit SaveSolver dumps between steps (all n_saved calls belong to it); the periodic dump is written
+            # inside a step (for Powell in the middle of it, finding F16), so the calls the ABANDONED solver made after
+            # the dump are not part of the restored solver's life: e0 of them are
+            e0, n0, m0 = t.evaluations, len(_RCALLS), len(t._evalmon._x)
+            g_saved = t.generations if sc['how'] == 'frequency' else g_saved
             cbs = []
             for _ in range(sc['after']):
                 t.Step(callback=lambda x: cbs.append(1))
-        if t.evaluations != len(_RCALLS):
-            viol.append(('evaluation-counter-equals-calls#after-restart', 'restored solver: evaluations=%r, %d calls before the '
-                         'restart + %d after' % (t.evaluations, n_saved, len(_RCALLS) - n_saved)))
+        own = len(_RCALLS) - n0
+        if (sc['how'] == 'SaveSolver' and e0 != n_saved) or e0 > n_saved or t.evaluations - e0 != own:
+            viol.append(('evaluation-counter-equals-calls#after-restart', 'restored solver: evaluations %r at load (%d calls before '
+                         'the dump at most), %r after %d further calls' % (e0, n_saved, t.evaluations, own)))
         m = t._evalmon
         xs = [tuple(float(v) for v in x) for x in m._x]
         ys = [_f(y) for y in m._y]
-        if xs != [c[0] for c in _RCALLS] or len(ys) != len(_RCALLS) or not all(_same(a, _f(c[1])) for a, c in zip(ys, _RCALLS)):
-            viol.append(('evaluation-monitor-equals-call-log#after-restart', 'restored solver: monitor has %d records, %d real calls'
-                         % (len(xs), len(_RCALLS))))
+        new = _RCALLS[n0:]
+        old_ok = m0 == e0 and xs[:m0] == [c[0] for c in _RCALLS[:m0]]
+        if not old_ok or xs[m0:] != [c[0] for c in new] or len(ys) != len(xs) or not all(_same(a, _f(c[1])) for a, c in zip(ys[m0:], new)):
+            viol.append(('evaluation-monitor-equals-call-log#after-restart', 'restored solver: monitor had %d records at load (counter %d), '
+                         'has %d now, %d further real calls' % (m0, e0, len(xs), own)))
         if t.generations != g_saved + sc['after']:
             viol.append(('generations-equal-completed-iterations#after-restart', 'restored solver: generations=%r, %d saved + %d after'
                          % (t.generations, g_saved, sc['after'])))
